@@ -791,7 +791,7 @@ def model_specs(draw, **kw):
                   mag=draw(st.sampled_from([0.3, 1.0, 1.0, 3.0])))
     nnodes = draw(st.integers(cfg['min_nodes'], cfg['max_nodes']))
     for _ in range(nnodes):
-      if 'EMBEDDING_LOOKUP' in cfg['ops'] and draw(st.integers(0, 14)) == 0:
+      if 'EMBEDDING_LOOKUP' in cfg['ops'] and draw(st.integers(0, 19)) == 0:
         _embedding_source(g)
         continue
       rt = g.runtime_f32()
@@ -802,6 +802,8 @@ def model_specs(draw, **kw):
       x = rt[idx]
       ops = _applicable(g, x, cfg)
       if not ops:
+        if 'EMBEDDING_LOOKUP' in cfg['ops']:
+          _embedding_source(g)
         continue
       _apply(g, draw(st.sampled_from(ops)), x, cfg)
     consumed = {t for n in g.nodes for t in n['in'] if t >= 0}
@@ -928,3 +930,52 @@ INTERACTION = {'multi_consumer', 'repeated_operand', 'exported_and_consumed',
                'exported_producer_at_0', 'concat_of_shared', 'unsupported_op',
                'multi_consumer_const', 'shared_buffer', 'shared_buffer_cross_sg',
                'dedup'}
+
+
+# --------------------------------------------------------------------------
+# derived specs: single-op models (per-op translation validation)
+# --------------------------------------------------------------------------
+def single_op_spec(sg, node, const_values_by_pos):
+  """A one-subgraph spec containing only `node`.
+
+  const_values_by_pos: {input position: ndarray} operands that are constants in
+  the program being validated (real values); all other float/int operands become
+  graph inputs.  Returns (spec, [input positions that are graph inputs]).
+  """
+  tensors, ins, node_in, feed_pos = [], [], [], []
+  seen = {}
+  for pos, t in enumerate(node['in']):
+    if t < 0:
+      node_in.append(-1)
+      continue
+    src = sg['tensors'][t]
+    if pos in const_values_by_pos:
+      v = np.asarray(const_values_by_pos[pos])
+      tensors.append({'name': 'c%d' % pos, 'shape': list(src['shape']),
+                      'dtype': src['dtype'], 'kind': 'const',
+                      'data': {'values': v.reshape(-1).tolist()}})
+      node_in.append(len(tensors) - 1)
+      continue
+    if t in seen:
+      node_in.append(seen[t])
+      continue
+    tensors.append({'name': 'x%d' % pos, 'shape': list(src['shape']),
+                    'dtype': src['dtype'], 'kind': 'in', 'dom': src.get('dom'),
+                    'mag': 1.0})
+    seen[t] = len(tensors) - 1
+    ins.append(len(tensors) - 1)
+    feed_pos.append(pos)
+    node_in.append(len(tensors) - 1)
+  outs = []
+  for k, t in enumerate(node['out']):
+    src = sg['tensors'][t]
+    tensors.append({'name': 'y%d' % k, 'shape': list(src['shape']),
+                    'dtype': src['dtype'], 'kind': 'act'})
+    outs.append(len(tensors) - 1)
+  spec = {'subgraphs': [{
+      'name': 'main', 'sig': 'serving_default', 'argprefix': 'a',
+      'tensors': tensors,
+      'nodes': [{'op': node['op'], 'in': node_in, 'out': outs,
+                 'opts': node.get('opts', {})}],
+      'order': [0], 'inputs': ins, 'outputs': outs}], 'dedup': False}
+  return spec, feed_pos
